@@ -73,7 +73,9 @@ CLAIMED = {
  "C03": dict(
    text="Proof. Per generated context body (signals, pushed signals, variables, bit/slice targets with constant and run-time index, if/elif/else, match, for-break chains, for-else, helpers with returns in branches; clocked, unclocked and concurrent contexts) "
         "a kernel-checked theorem: for ALL input sequences the parsed VHDL the compiler emitted on this run has the trace of the documented activation semantics (Models/SeqRef.v: deferred signal updates, last write wins, unwritten holds, immediate variables, "
-        "one-step pushes, first matching branch). Bodies are sampled (corpus per clause + seeded generator); input sequences are proved.",
+        "one-step pushes, first matching branch). Bodies are sampled (corpus per clause + seeded generator); input sequences are proved. "
+        "All bodies (one activation, partial): Models/SeqLower.v models the rendering of a clocked body to VHDL statements; C03_lower_correct_partial proves for EVERY body of a stated grammar, every well-typed store and input vector that one activation of the lowered process under Vhdl.Sem "
+        "computes exactly the next state of the reference (signals after finish, variables, nothing else changes); the lift to whole traces is stated, not proved; each in-grammar case is additionally proved trace-equal to the lowered design (second kernel-checked theorem).",
    technique="Rocq proof: verified product-reachability checker with verified dead-variable normalisation, applied per compiled body against a Gallina reference interpreter",
    design_ref="DESIGN.md §6 C03"),
  "C04": dict(
@@ -118,7 +120,9 @@ CLAIMED = {
    text="Proof. Unbounded theorems: C02_type_width (every well-typed expression tree evaluates, under the documented semantics written from the property text, to a value of exactly the documented type and width - induction over trees, all widths) and "
         "C02_agrees_with_numeric_std_* (for + - * truncdiv mod rem, comparisons, neg/abs, shifts, resize: the documented value equals what numeric_std computes on the operand shapes the backend emits, all widths and values), select-first-match, chained comparison, concat, shift kind. "
         "Per generated design (every operator x operand-type x width pair at small widths, int operands either side, slices, run-time indices, views, if-expressions, select_with, any/all, arrays, random trees of depth 3) a kernel-checked theorem that the parsed VHDL "
-        "emitted on this run yields the documented value for ALL operand valuations.",
+        "emitted on this run yields the documented value for ALL operand valuations. "
+        "All expression trees (partial): Models/ExprEmit.v models what the back end prints for a tree (temporaries inlined); C02_emit_correct_partial proves by induction over the tree, for all widths and valuations, that the printed expression evaluates under Vhdl.Sem to the documented value "
+        "(inputs, constants, views, index, nested slices, unary operators, all comparisons, + - * truncdiv mod rem on equal-kind vectors, shifts; int-literal arithmetic, bitwise, concat and resize are modelled and tied but not yet composed); the model is compared syntactically (expr_eqb inside Coq) with the inlined emitted VHDL of every generated expression on every run.",
    technique="Rocq proof: typed reference evaluator + agreement with the numeric_std model for all widths; verified checker per compiled expression design, exhaustive over operand values",
    design_ref="DESIGN.md §6 C02"),
  "C05": dict(
